@@ -220,7 +220,7 @@ static void mode_scripted(Tape &t)
 	ServerFlight f = parse_server_flight(out);
 	Outcome r = reference(c, s);
 	Outcome rk = reference(c, s, true);
-	bool in_finding_domain = !r.ambiguous && !rk.ambiguous && (r.alert != rk.alert || r.suite != rk.suite);
+	bool in_finding_domain = !r.ambiguous && (rk.ambiguous || r.alert != rk.alert || r.suite != rk.suite);
 	std::string desc = fmt("scripted ClientHello v=%04x suites=[", c.vmax);
 	for (uint16_t x : c.suites) desc += fmt("%04x ", x);
 	desc += fmt("] sigalgs=%s curves=%s alpn=%zu | server %04x-%04x key=%d usages=%#x flags=%#x suites=[", c.has_sigalgs ? fmt("rsa:%#x/ec:%#x", c.rsa_hashes, c.ecdsa_hashes).c_str() : "absent",
@@ -232,6 +232,16 @@ static void mode_scripted(Tape &t)
 	auto agrees = [&](const Outcome &x) {
 		return x.alert >= 0 ? (!f.got_hello && f.alert_level == 2 && (f.alert_desc == x.alert || (x.alt_alert >= 0 && f.alert_desc == x.alt_alert))) : (f.got_hello && f.alert_desc < 0 && f.suite == x.suite && f.version == x.version);
 	};
+	if (in_finding_domain && !agrees(r) && rk.ambiguous && known("sigalgs-filter-below-tls12")) {
+		// with the ECDHE suite filtered away (listed finding) the next candidate is one of the undocumented corners of the
+		// reference (static ECDH with a client curve list that lacks the certificate's curve): not judged
+		stats.known_finding("sigalgs-filter-below-tls12", "at TLS 1.0/1.1 the server removes ECDHE_RSA / ECDHE_ECDSA suites from the negotiation when the client's signature_algorithms extension has no hash in common for that signature type, "
+			"although below TLS 1.2 the ServerKeyExchange hash is fixed (MD5+SHA-1 / SHA-1) and the extension is not meaningful: it picks a later (non-forward-secret) suite or fails with handshake_failure");
+		stats.excluded++;
+		stats.cls("S:known-sigalgs-filter+undocumented-corner");
+		stats.eval();
+		return;
+	}
 	if (in_finding_domain && !agrees(r) && known("sigalgs-filter-below-tls12")) {
 		bool as_listed = agrees(rk);
 		std::string what = fmt("at TLS 1.0/1.1 the server removes ECDHE suites when the client's signature_algorithms extension (meaningless below TLS 1.2: the hash is fixed to MD5+SHA-1 / SHA-1) "
